@@ -489,6 +489,73 @@ def _run_big(col, only=None):
                 "method": "majority", "factors": [8, 8, 8]})
 
 
+INF_SHAPES = [(2, 2, 2), (3, 3, 3), (1, 1, 4), (1, 5, 1), (2, 3, 1)]
+INF_FACTORS = [(2, 2, 2), (2, 1, 1), (1, 2, 1), (1, 1, 2), (2, 2, 1),
+               (1, 1, 1)]
+
+
+def _inf_cases():
+    out = []
+    for shape in INF_SHAPES:
+        n = shape[0] * shape[1] * shape[2]
+        pats = [("all+inf", None), ("all-inf", None)]
+        pats += [("one+inf", k) for k in range(n)]
+        pats += [("one-inf", k) for k in (0, n - 1)]
+        for factors in INF_FACTORS:
+            for pat, k in pats:
+                out.append((shape, factors, pat, k))
+    return out
+
+
+def _eval_infinity(col, shape, factors, pat, k):
+    """float32 volumes holding infinities of one sign: the mean of a block
+    that contains +inf (-inf) is +inf (-inf) - never NaN, which lies outside
+    [min, max] of the block. Edge padding only."""
+    n = shape[0] * shape[1] * shape[2]
+    sign = 1.0 if "+" in pat else -1.0
+    vals = [sign * float("inf")] * n if k is None else [
+        (sign * float("inf")) if i == k else 1.5 + i for i in range(n)]
+    case = {"kind": "infinity", "shape": list(shape),
+            "factors": list(factors), "pattern": pat, "position": k}
+    chunk = np.array(vals, dtype="float32").reshape((1,) + tuple(shape))
+    ds = _downscaler("average", None)
+    with np.errstate(all="ignore"):
+        try:
+            res = ds.downscale(chunk, tuple(factors))
+        except Exception as exc:
+            col.ev(1, 1, "average-exception")
+            col.violation("C07/average/exception/" + type(exc).__name__,
+                          case, "downscaled array", repr(exc)[:200])
+            return
+    oshape, blocks = _block_indices(shape, factors, True)
+    ok = True
+    flat = np.ascontiguousarray(res[0]).ravel() if tuple(
+        res.shape) == (1,) + tuple(oshape) else None
+    if flat is None or res.dtype != np.float32:
+        col.ev(1, 1, "average-bad-shape")
+        col.violation("C07/average/shape-or-dtype", case,
+                      "float32 %r" % ((1,) + tuple(oshape),),
+                      "%s %r" % (res.dtype, tuple(res.shape)))
+        return
+    for i, blk in enumerate(blocks):
+        contrib = [vals[j] for _, j in blk]
+        if any(np.isinf(v) for v in contrib):
+            want = sign * float("inf")
+            if not (np.isinf(flat[i]) and (flat[i] > 0) == (sign > 0)):
+                ok = False
+                col.violation("C07/average/outside-min-max-of-block/"
+                              "float32-infinity", dict(case, voxel=i),
+                              repr(want), repr(float(flat[i])))
+        else:
+            m = sum(Fraction(v) for v in contrib) / len(contrib)
+            if abs(Fraction(float(flat[i])) - m) > Fraction(1, 2 ** 18):
+                ok = False
+                col.violation("C07/average/wrong-value/float32",
+                              dict(case, voxel=i), float(m),
+                              repr(float(flat[i])))
+    col.ev(1, 1, "average-ok" if ok else "average-wrong")
+
+
 def units(tier):
     u = []
     for dtype in DTYPES:
@@ -508,6 +575,7 @@ def units(tier):
     u.append({"kind": "reject"})
     u.append({"kind": "reuse"})
     u.append({"kind": "instances"})
+    u.append({"kind": "infinity"})
     for k in range(6):
         u.append({"kind": "big", "part": k})
     return u
@@ -579,6 +647,12 @@ def run_unit(u):
         _run_reuse(col)
     elif u["kind"] == "instances":
         _run_instances(col)
+    elif u["kind"] == "infinity":
+        for c in _inf_cases():
+            _eval_infinity(col, *c)
+        col.sample({"kind": "infinity", "shape": [2, 2, 2],
+                    "factors": [2, 2, 2], "pattern": "all+inf",
+                    "position": None})
     elif u["kind"] == "big":
         _run_big(col, u.get("part"))
     else:
@@ -605,6 +679,11 @@ def replay(case):
     if case.get("kind") == "reject":
         _eval_reject(col, case["method"], case["factors"])
         return col.records()
+    if case.get("kind") == "infinity":
+        _eval_infinity(col, tuple(case["shape"]), tuple(case["factors"]),
+                       case["pattern"], case["position"])
+        return [r for r in col.records()
+                if r["case"].get("voxel") == case.get("voxel")]
     if case.get("kind") == "big":
         _run_big(col)
         return [r for r in col.records()
